@@ -76,6 +76,33 @@ theorem int_le_of_rat (i X : Int) (y : Rat) (h1 : (i : Rat) ≤ y) (h2 : y < (X 
   have := Rat.intCast_lt_intCast.mp h
   omega
 
+theorem floor_eq_of (x : Rat) (n : Int) (h1 : (n : Rat) ≤ x) (h2 : x < (n : Rat) + 1) :
+    Py.floor x = n := by
+  have a : n ≤ Py.floor x := le_floor_of_int_le x n h1
+  have b : Py.floor x ≤ n := int_le_of_rat _ _ x (floor_le x) h2
+  omega
+
+/-- `int(L / 2.0)` is `L // 2` for non-negative integers. -/
+theorem trunc_half (L : Int) (hL : 0 ≤ L) : Py.trunc ((L : Rat) / 2) = L / 2 := by
+  have hLr : (0 : Rat) ≤ (L : Rat) := by
+    have := Rat.intCast_le_intCast.mpr hL; simpa using this
+  have hq : (0 : Rat) ≤ (L : Rat) / 2 := by
+    have h2 : (0 : Rat) ≤ (L : Rat) / 2 ↔ (0 : Rat) * 2 ≤ (L : Rat) := by
+      rw [← Rat.not_lt, ← Rat.not_lt, Rat.div_lt_iff (by grind : (0 : Rat) < 2)]
+    exact h2.mpr (by grind)
+  unfold Py.trunc
+  simp only [hq, if_true]
+  have e : (L : Rat) = ((2 * (L / 2) + L % 2 : Int) : Rat) := by
+    congr 1; omega
+  have hr0 : (0 : Rat) ≤ ((L % 2 : Int) : Rat) := by
+    have := Rat.intCast_le_intCast.mpr (Int.emod_nonneg L (by omega : (2 : Int) ≠ 0)); simpa using this
+  have hr1 : ((L % 2 : Int) : Rat) ≤ 1 := by
+    have : L % 2 ≤ 1 := by omega
+    have := Rat.intCast_le_intCast.mpr this; simpa using this
+  apply floor_eq_of
+  · rw [e]; simp only [Rat.intCast_add, Rat.intCast_mul, Rat.div_def]; grind
+  · rw [e]; simp only [Rat.intCast_add, Rat.intCast_mul, Rat.div_def]; grind
+
 theorem div_le_iff {a b c : Rat} (hb : 0 < b) : a / b ≤ c ↔ a ≤ c * b := by
   rw [← Rat.not_lt, ← Rat.not_lt, Rat.lt_div_iff hb]
 
